@@ -218,7 +218,8 @@ def configuration_values(ctx):
     if not raws:
         raise AnalysisError(f"{fq}: raw value (group 'kconfig_value') not found in the stored term")
     RAW = raws[0]
-    table = {'"0042"': "0042", '"0x1F"': "0x1F", '"y"': "y", '"nordicsemi.com"': "nordicsemi.com", '"42"': "42", '""': "", '"n"': "n"}
+    table = {'"0042"': "0042", '"0x1F"': "0x1F", '"y"': "y", '"nordicsemi.com"': "nordicsemi.com", '"42"': "42", '""': "", '"n"': "n",
+             '"M\u00fcller Ger\u00e4tebau"': "M\u00fcller Ger\u00e4tebau", '"funk\u00b5controller"': "funk\u00b5controller", '"a b&c<d>"': "a b&c<d>"}
     for raw, want in table.items():
         try:
             got = teval(val, {RAW: raw})
